@@ -642,6 +642,23 @@ type searchRequest struct {
 	revision revision
 }
 
+// merge folds a newer request into one that has not been consumed yet, so
+// that a pending reload, nth change or exclusion is not lost
+func (r searchRequest) merge(next searchRequest) searchRequest {
+	if next.nth == nil {
+		next.nth = r.nth
+	}
+	if next.command == nil {
+		next.command = r.command
+		next.sync = r.sync
+	}
+	next.changed = next.changed || r.changed
+	if len(r.denylist) > 0 {
+		next.denylist = append(append([]int32{}, r.denylist...), next.denylist...)
+	}
+	return next
+}
+
 type previewRequest struct {
 	template     string
 	scrollOffset int
@@ -6144,7 +6161,12 @@ func (t *Terminal) Loop() error {
 		t.mutex.Unlock() // Must be unlocked before touching reqBox
 
 		if reload {
-			t.eventBox.Set(EvtSearchNew, *reloadRequest)
+			t.eventBox.Update(EvtSearchNew, func(pending any) any {
+				if prev, ok := pending.(searchRequest); ok {
+					return prev.merge(*reloadRequest)
+				}
+				return *reloadRequest
+			})
 		}
 		for _, event := range events {
 			t.reqBox.Set(event, nil)
